@@ -446,10 +446,20 @@ class SetGen:
             return ('oid', rng.choice(nodes))
         if syn['kind'] == 'int':
             lo = syn['ranges'][0][0] if 'ranges' in syn else 0
+            if self.exotic_defvals and 'ranges' not in syn and syn.get('base') in ('Unsigned32', 'Gauge32', 'Counter32', 'TimeTicks') \
+                    and rng.random() < 0.5:
+                # all 32 bits spelled out, top bit set: must stay a large positive number
+                v = rng.choice([0x80000000, 0xFFFFFFFF, 0xDEADBEEF, 0x7FFFFFFF])
+                return rng.choice([('hex', v), ('bin', v), ('num', v)])
             return rng.choice([('num', lo), ('hex', max(lo, 0)), ('bin', max(lo, 0))])
         if syn['kind'] == 'str':
-            return rng.choice([('str', 'abc'), ('hexstr', 'DEADBEEF'), ('binstr', '00001111'), ('binstr', '0000000000000001'),
-                               ('hexstr', '00ff'), ('str', 'with space')])
+            opts = [('str', 'abc'), ('hexstr', 'DEADBEEF'), ('binstr', '00001111'), ('binstr', '0000000000000001'),
+                    ('hexstr', '00ff'), ('str', 'with space')]
+            if self.exotic_defvals:
+                # literals that are not a whole number of octets, with leading zeros: every digit is part of the value
+                opts += [('hexstr', '0ABCD'), ('hexstr', '000'), ('hexstr', '0'), ('binstr', '000000001'), ('binstr', '000011110000'),
+                         ('binstr', '0'), ('hexstr', '00000'), ('binstr', '0000')]
+            return rng.choice(opts)
         return None
 
     def table(self, mname, add, imp, pick_parent, types, nodes):
